@@ -14,6 +14,7 @@ from __future__ import annotations
 import argparse
 import concurrent.futures as cf
 import importlib
+import importlib.util
 import json
 import os
 import shutil
